@@ -1506,7 +1506,9 @@ class PseudoNetCDFFile(PseudoNetCDFSelfReg, object):
         outf._operator_exclude_vars = tuple(self._operator_exclude_vars)
         if props:
             for pk in self.ncattrs():
-                setattr(outf, pk, getattr(self, pk))
+                # getncattr: netCDF4 python attributes (scale, mask, name,
+                # ...) shadow like-named file attributes of files on disk
+                setattr(outf, pk, self.getncattr(pk))
         if dimensions:
             for dk, dv in self.dimensions.items():
                 outf.copyDimension(dv, key=dk)
